@@ -63,14 +63,24 @@ def wrap_query(rng, q, eol):
     return lines
 
 
-def rule_file(rng, q, eol=None, blank_lines=True):
+def rule_file(rng, q, eol=None, blank_lines=True, head=None):
+    """head: (header lines, metadata) of another rule file to reuse (a copy-pasted header) instead of a fresh one"""
     eol = eol or rng.choice(["\n", "\r\n"])
-    hl, meta = header(rng, eol)
+    hl, meta = head if head is not None else header(rng, eol)
+    hl, meta = list(hl), dict(meta)
     ql = wrap_query(rng, q, eol)
     parts = hl + ([""] if blank_lines and rng.random() < 0.6 else []) + ql
     if rng.random() < 0.25:
         # mixed line endings (a file edited on two platforms, or a header pasted in): every line its own ending
         text = "".join(p + rng.choice(["\n", "\r\n"]) for p in parts[:-1]) + parts[-1] + (rng.choice(["\n", "\r\n"]) if rng.random() < 0.7 else "")
-        return text, meta
+        return Rule(text, meta, hl)
     text = eol.join(parts) + (eol if rng.random() < 0.7 else "")
-    return text, meta
+    return Rule(text, meta, hl)
+
+
+class Rule(tuple):
+    """(text, meta) with the header lines kept aside, so that another file can be given the same header"""
+    def __new__(cls, text, meta, hl):
+        o = tuple.__new__(cls, (text, meta))
+        o.head = (hl, meta)
+        return o
